@@ -206,6 +206,18 @@ def _run(t: str, s: int) -> Result:
                 k = kernels.compile_kernel(text, fm, ["evaluate"], programs, cap=cap)
                 kernel_list.append((k, cap, group))
 
+    # target sweep: every format of the target (all modes x orderings) against natural input formats for copy-like shapes
+    from . import kset
+
+    sweep_inputs = {"d0s1s2"} if t == "quick" else None
+    for text, fm in kset.target_sweep():
+        if t == "quick" and (text != "a(i,j,k) = b(i,j,k)" or fm["b"] not in sweep_inputs):
+            continue
+        probe = kernels.compile_kernel(text, fm, ["evaluate"], [], cap=1)
+        if probe.error:
+            continue
+        kernel_list.append((kernels.compile_kernel(text, fm, ["evaluate"], programs, cap=1), 1, "target-sweep"))
+
     # ---- stage A: every kernel x inputs on the abstract machine ---------------------------------------------------
     for ki, (k, cap, group) in enumerate(kernel_list):
         for dims, content in input_sets(k.asg, rng, P["inputs"]):
